@@ -50,7 +50,8 @@ func illExpr(g *Gen, d int) *Node {
 	anyTy := func() Ty {
 		return []Ty{TBool, TInt, TStr, TIntList, TStrList, TIntSet, TStrSet}[r.Intn(7)]
 	}
-	if d <= 1 || r.P(0.25) {
+	g.left--
+	if d <= 1 || g.left <= 0 || r.P(0.25) {
 		return g.Leaf(anyTy())
 	}
 	d--
@@ -96,12 +97,17 @@ func (propC06) Gen(r *Rng, tier string) *World {
 	w := &World{Prop: "C06"}
 	if r.P(0.7) {
 		for i := 0; i < 10; i++ {
+			g.left = 200
+			if k.Budget > 0 {
+				g.left = k.Budget
+			}
 			w.Prog = illExpr(g, k.MaxDepth)
 			if w.Prog.K == KOp || w.Prog.K == KIf {
 				break
 			}
 		}
 		if w.Prog.K != KOp && w.Prog.K != KIf {
+			g.left = 10
 			w.Prog = Op("eq", w.Prog, illExpr(g, 2))
 		}
 	} else {
